@@ -267,6 +267,13 @@ def _extra(arg):
         if not abs(got - ref) <= 1e-12 * scale + 1e-15:
             res.violation(f"other-domains:{rname.split('=')[0]}:differs-from-nested-sum", f"{name}: integrate({rname}) = {got!r}, nested "
                           f"sum over the product set {ref!r}", dict(case, route_name=rname), got=got, expected=ref)
+    # homogeneity: the integral of 1e-18 f and of 1e15 f
+    for sfac in (1e-18, 1e15):
+        for kw in (dict(non_vectorized=False), dict(non_vectorized=True, integration_chunk_size=7)):
+            res.count()
+            got = float(md.integrate(lambda *a, sfac=sfac: sfac * f(*a), **kw)) / sfac
+            if not abs(got - ref) <= 1e-12 * scale + 1e-15:
+                res.violation("other-domains:homogeneity", f"{name}: integrate({sfac:g} f) / {sfac:g} = {got!r}, nested sum {ref!r}", case)
     if total <= 200:
         res.count()
         pts, ws = list(md.points), [float(v) for v in md.weights]
